@@ -160,9 +160,12 @@ def runProbe (b : Block) : Res :=
   -- two value sets built from the same description (or belonging to two functions with the same result types) are two objects
   let tw := ((field b "twinsets").getD []).headD "skip"
   let pp := pp.or (if tw = "aliased" ∨ tw = "panic" ∨ tw = "err" then some s!"value_sets_of_equal_description_{tw}" else none)
+  -- a redefined function called again passes on the values of this call only
+  let ru := ((field b "reuse").getD []).headD "skip"
+  let pru := if ru = "skip" ∨ ru = "intact" then none else some s!"a_redefined_function_called_repeatedly_{ru}"
   let ptw := if tw = "aliased" then some "value_sets_of_equal_description_aliased:_a_value_loaded_into_one_is_seen_through_the_other" else none
   { conform := none, propNA := true,
-    props := [("C02", verdictStr ps), ("C03", verdictStr ps), ("C05", verdictStr ps), ("C16", verdictStr ps), ("C15", verdictStr (pp.or ps)), ("C13", verdictStr ps), ("C01", verdictStr (ps.or ptw)), ("C09", verdictStr (ps.or pb)), ("C06", verdictStr (if bare = "panic" ∨ sib = "panic" then some "probe_panicked" else none))],
+    props := [("C02", verdictStr ps), ("C03", verdictStr ps), ("C05", verdictStr ps), ("C16", verdictStr (ps.or pru)), ("C08", verdictStr pru), ("C15", verdictStr (pp.or ps)), ("C13", verdictStr ps), ("C01", verdictStr (ps.or ptw)), ("C09", verdictStr (ps.or pb)), ("C06", verdictStr (if bare = "panic" ∨ sib = "panic" then some "probe_panicked" else none))],
     stats := ["execs=1", "outcome=ok", "size=1"] }
 
 /-- `alias` blocks: after calling a redefined function, is the caller's option slice (spare capacity
